@@ -182,6 +182,177 @@ func scriptRestartStages() []Event {
 
 var defaultFaults = []int{int(BDrop), 1, int(BDup), 1, int(BCrash), 1, int(BCampaign), 1, int(BPropose), 1}
 
+// ---------------------------------------------------------------- snapshot / compaction
+
+func scriptSnapshot() []Event {
+	return seq(camp(1), prop(1), isolate(3), prop(1), prop(1), compact(1, 0), heal(), prop(1), reportSnap(1, 3, 0), compact(3, 0), prop(1),
+		isolate(2), prop(1), compact(1, 1), camp(1), heal(), prop(1))
+}
+
+func scriptSnapshotRestart() []Event {
+	return seq(camp(1), prop(1), prop(1), compact(2, 0), crash(2, CrashAppliedZero), isolate(3), prop(1), prop(1), compact(1, 0), heal(), prop(1),
+		crash(3, 0), prop(1), compact(3, 0), crash(3, CrashAppliedZero), prop(1))
+}
+
+// bfsSnapshot: leader 1 has compacted past what node 3 holds; the snapshot, appends,
+// heartbeats, the status report and faults race.
+func bfsSnapshot(f feat, faults ...int) *Scenario {
+	s := newSc("bfs/snapshot/"+f.tag(), 3, ids(3), f.cfg())
+	s.Prefix = []Event{camp(1), prop(1), isolate(3), prop(1), prop(1), compact(1, 0)}
+	s.Budget[BPropose] = 1
+	s.ProposeNodes = []uint8{1}
+	s.Budget[BSnapFail] = 1
+	s.budget(faults...)
+	// the heal is the first thing that happens
+	s.Prefix = append(s.Prefix, heal(), prop(1))
+	s.LazyReady = false
+	return s.named(faultTag(faults))
+}
+
+// ---------------------------------------------------------------- membership
+
+var (
+	ccAddLearner4 = ConfSpec{Changes: "l4"}
+	ccAddVoter4   = ConfSpec{Changes: "v4"}
+	ccRemove3     = ConfSpec{Changes: "r3"}
+	ccRemove1     = ConfSpec{Changes: "r1"}
+	ccV1AddVoter4 = ConfSpec{V1: true, Changes: "v4"}
+	ccV1Remove2   = ConfSpec{V1: true, Changes: "r2"}
+	ccJointImpl   = ConfSpec{Transition: pb.ConfChangeTransitionJointImplicit, Changes: "v4 r3"}
+	ccJointExpl   = ConfSpec{Transition: pb.ConfChangeTransitionJointExplicit, Changes: "v4 l3"}
+	ccJointAuto2  = ConfSpec{Changes: "v4 r1"}
+	ccLeave       = ConfSpec{}
+	ccDemote2     = ConfSpec{Changes: "l2 v4"}
+)
+
+var confMenu = []ConfSpec{ccAddLearner4, ccAddVoter4, ccRemove3, ccRemove1, ccV1AddVoter4, ccV1Remove2, ccJointImpl, ccJointExpl, ccJointAuto2, ccLeave, ccDemote2}
+
+const (
+	mAddLearner4 = iota
+	mAddVoter4
+	mRemove3
+	mRemove1
+	mV1AddVoter4
+	mV1Remove2
+	mJointImpl
+	mJointExpl
+	mJointAuto2
+	mLeave
+	mDemote2
+)
+
+func confSc(name string, f feat, script []Event, k int, budgets ...int) *Scenario {
+	s := ddScn(name, 4, ids(3), f, script, k, budgets...)
+	s.ConfMenu = confMenu
+	return s
+}
+
+func scriptLearner() []Event {
+	return seq(camp(1), prop(1), conf(1, mAddLearner4), prop(1), conf(1, mAddVoter4), prop(1), isolate(1), camp(4), prop(4), heal(), prop(4), conf(4, mRemove3), prop(4))
+}
+
+func scriptSimpleConf() []Event {
+	return seq(camp(1), conf(1, mV1AddVoter4), prop(1), conf(2, mV1Remove2), prop(1), conf(1, mRemove1), prop(1), camp(3), prop(3))
+}
+
+func scriptJoint() []Event {
+	return seq(camp(1), prop(1), conf(1, mJointImpl), prop(1), prop(2), conf(1, mJointExpl), prop(1), conf(1, mLeave), prop(1), conf(1, mJointAuto2), prop(1), camp(2), prop(2))
+}
+
+func scriptConfFailover() []Event {
+	return seq(camp(1), prop(1), cut(1, 3), conf(1, mJointExpl), isolate(1), camp(2), prop(2), conf(2, mLeave), heal(), prop(2), conf(2, mAddVoter4), prop(2))
+}
+
+// bfsConf: an established leader; conf-change proposals from a small menu at any
+// node, a campaign and faults race.
+func bfsConf(f feat, menu []ConfSpec, nconf int, faults ...int) *Scenario {
+	s := newSc("bfs/conf/"+f.tag(), 4, ids(3), f.cfg())
+	s.Prefix = []Event{camp(1)}
+	s.ConfMenu = menu
+	s.ConfNodes = []uint8{1, 2}
+	s.Budget[BProposeConf] = nconf
+	s.budget(faults...)
+	s.CampaignNodes = []uint8{2}
+	s.MaxTerm = 3
+	return s.named(fmt.Sprintf("/menu%d", len(menu)) + faultTag(faults))
+}
+
+// ---------------------------------------------------------------- reads
+
+func scriptRead() []Event {
+	return seq(camp(1), read(1), prop(1), read(1), read(2), isolate(1), camp(2), prop(2), read(1), read(3), prop(2), read(2), heal(), read(1), prop(3), read(3))
+}
+
+func scriptReadSingleton() []Event {
+	return seq(camp(1), prop(1), read(1), prop(1), crash(1, CrashLoseUnsynced), camp(1), read(1), prop(1), read(1))
+}
+
+func scriptReadConf() []Event {
+	return seq(camp(1), prop(1), read(2), conf(1, mRemove1), read(1), read(2), camp(2), read(3), prop(2), read(1))
+}
+
+// bfsRead: established leader with a committed entry; reads at any node, a
+// proposal, a competing campaign and partitions realised by drops.
+func bfsRead(f feat, reads int, faults ...int) *Scenario {
+	s := newSc("bfs/read/"+f.tag(), 3, ids(3), f.cfg())
+	s.Prefix = []Event{camp(1), prop(1)}
+	s.Budget[BRead] = reads
+	s.ReadNodes = []uint8{1, 2}
+	s.budget(faults...)
+	s.CampaignNodes = []uint8{2, 3}
+	s.MaxTerm = 3
+	return s.named(faultTag(faults))
+}
+
+// ---------------------------------------------------------------- flow control
+
+func flowCfg(f feat, maxInflight int, maxSize, maxBytes, maxUncommitted uint64) NodeCfg {
+	c := f.cfg()
+	c.MaxInflight, c.MaxSizePerMsg, c.MaxInflightBytes, c.MaxUncommitted = maxInflight, maxSize, maxBytes, maxUncommitted
+	return c
+}
+
+func scriptFlow() []Event {
+	return seq(camp(1), isolate(3), prop(1), prop(1), prop(1), prop(1), prop(1), heal(), prop(1), unreach(1, 2), prop(1), prop(1), isolate(1), prop(1), prop(1), prop(1), prop(1), heal(), camp(2), prop(2))
+}
+
+// ---------------------------------------------------------------- tick driven
+
+func tickCfgs(f feat, n int) []NodeCfg {
+	var out []NodeCfg
+	for i := 0; i < n; i++ {
+		c := f.cfg()
+		c.ElectionTick, c.HeartbeatTick = 3, 1
+		c.Timeout = 3 + i%3
+		out = append(out, c)
+	}
+	return out
+}
+
+func tickSc(name string, n int, f feat, script []Event, k int, budgets ...int) *Scenario {
+	s := ddScn(name, n, ids(n), f, script, k, budgets...)
+	s.Cfg = tickCfgs(f, n)
+	return s
+}
+
+func roundTicks(n, rounds int) []Event {
+	var out []Event
+	for r := 0; r < rounds; r++ {
+		for i := 1; i <= n; i++ {
+			out = append(out, tick(i))
+		}
+	}
+	return out
+}
+
+func scriptPrevoteRejoin() []Event {
+	return seq(ticks(1, 3), prop(1), isolate(3), ticks(3, 5), prop(1), roundTicks(2, 2), ticks(3, 5), heal(), roundTicks(3, 2), prop(1), ticks(3, 4), roundTicks(3, 1))
+}
+
+func scriptCheckQuorumLease() []Event {
+	return seq(ticks(1, 3), prop(1), roundTicks(3, 1), camp(3), isolate(1), ticks(1, 3), ticks(1, 3), ticks(2, 4), heal(), roundTicks(3, 2), prop(2), xfer(2, 3), roundTicks(3, 2))
+}
+
 // ---------------------------------------------------------------- catalogue
 
 func job(prop, tier string, strategy string, sc *Scenario, weight int, mons ...string) *Job {
@@ -195,14 +366,24 @@ var cqF = feat{checkq: true}
 var pvcqF = feat{prevote: true, checkq: true}
 var asyncPvF = feat{async: true, prevote: true}
 
-// safetyScenarios is the common pool for the log/commit safety properties.
-func safetyScenarios(tier string) (bfs []*Scenario, dd []*Scenario) {
-	k := 1
+type pool struct {
+	bfs, dd []*Scenario
+}
+
+func (p *pool) add(o pool) { p.bfs = append(p.bfs, o.bfs...); p.dd = append(p.dd, o.dd...) }
+
+func devK(tier string) int {
 	if tier == "thorough" {
-		k = 2
+		return 2
 	}
+	return 1
+}
+
+// poolSafety: elections, replication, failover, restarts.
+func poolSafety(tier string) (p pool) {
+	k := devK(tier)
 	for _, f := range []feat{syncF, asyncF} {
-		bfs = append(bfs,
+		p.bfs = append(p.bfs,
 			bfsElectProp(f),
 			bfsElectProp(f, int(BDup), 1),
 			bfsElectProp(f, int(BCrash), 1),
@@ -211,44 +392,179 @@ func safetyScenarios(tier string) (bfs []*Scenario, dd []*Scenario) {
 			bfsFailover(f),
 			bfsFailover(f, int(BCrash), 1),
 		)
-		dd = append(dd,
+		p.dd = append(p.dd,
 			ddScn("failover", 3, ids(3), f, scriptFailover(), k, defaultFaults...),
 			ddScn("figure8", 3, ids(3), f, scriptFigure8(), k, defaultFaults...),
 			ddScn("restart-stages", 3, ids(3), f, scriptRestartStages(), k, defaultFaults...),
+			ddScn("basic", 3, ids(3), f, scriptBasic(), k+1, defaultFaults...),
 		)
 	}
 	return
 }
 
+func poolElection(tier string) (p pool) {
+	for _, f := range []feat{syncF, asyncF, pvF} {
+		p.bfs = append(p.bfs, bfsDueling(f, 3, 2, 3), bfsDueling(f, 3, 2, 3, int(BDup), 1), bfsDueling(f, 3, 2, 3, int(BCrash), 1))
+	}
+	return
+}
+
+func poolSnapshot(tier string) (p pool) {
+	k := devK(tier)
+	fl := append([]int{int(BSnapFail), 1, int(BCompact), 1}, defaultFaults...)
+	for _, f := range []feat{syncF, asyncF} {
+		p.bfs = append(p.bfs, bfsSnapshot(f), bfsSnapshot(f, int(BDup), 1), bfsSnapshot(f, int(BCrash), 1))
+		p.dd = append(p.dd,
+			ddScn("snapshot", 3, ids(3), f, scriptSnapshot(), k, fl...),
+			ddScn("snapshot-restart", 3, ids(3), f, scriptSnapshotRestart(), k, fl...),
+		)
+	}
+	return
+}
+
+func poolConf(tier string) (p pool) {
+	k := devK(tier)
+	for _, f := range []feat{syncF, asyncF, {stepdown: true}} {
+		p.dd = append(p.dd,
+			confSc("learner", f, scriptLearner(), k, defaultFaults...),
+			confSc("simple-conf", f, scriptSimpleConf(), k, defaultFaults...),
+			confSc("joint", f, scriptJoint(), k, defaultFaults...),
+			confSc("conf+failover", f, scriptConfFailover(), k, defaultFaults...),
+		)
+	}
+	for _, f := range []feat{syncF, asyncF} {
+		p.bfs = append(p.bfs,
+			bfsConf(f, []ConfSpec{ccAddVoter4, ccRemove3}, 2, int(BCampaign), 1),
+			bfsConf(f, []ConfSpec{ccJointImpl, ccLeave}, 2, int(BCampaign), 1),
+			bfsConf(f, []ConfSpec{ccJointExpl, ccLeave}, 2, int(BCrash), 1),
+		)
+	}
+	return
+}
+
+func poolRead(tier string) (p pool) {
+	k := devK(tier)
+	for _, f := range []feat{syncF, asyncF, pvcqF} {
+		p.dd = append(p.dd, ddScn("read", 3, ids(3), f, scriptRead(), k, append([]int{int(BRead), 1}, defaultFaults...)...))
+		rc := confSc("read+conf", f, scriptReadConf(), k, append([]int{int(BRead), 1}, defaultFaults...)...)
+		p.dd = append(p.dd, rc)
+		one := ddScn("read-singleton", 1, ids(1), f, scriptReadSingleton(), k+1, int(BRead), 1, int(BCrash), 1, int(BPropose), 1)
+		p.dd = append(p.dd, one)
+	}
+	for _, f := range []feat{syncF, asyncF} {
+		p.bfs = append(p.bfs, bfsRead(f, 2, int(BCampaign), 1, int(BPropose), 1), bfsRead(f, 2, int(BDrop), 1, int(BCampaign), 1))
+	}
+	return
+}
+
+func poolFlow(tier string) (p pool) {
+	k := devK(tier)
+	for _, f := range []feat{syncF, asyncF} {
+		for vi, c := range []NodeCfg{
+			flowCfg(f, 1, 0, 0, 0),
+			flowCfg(f, 2, 40, 0, 30),
+			flowCfg(f, 3, 50, 60, 10),
+		} {
+			s := ddScn(fmt.Sprintf("flow%d", vi), 3, ids(3), f, scriptFlow(), k, defaultFaults...)
+			s.Cfg = []NodeCfg{c}
+			s.PropSizes = []int{4, 12, 4, 30, 4, 4, 12, 4, 4, 30, 4, 4, 4, 4, 4}
+			s.UnreachPairs = [][2]uint8{{1, 2}}
+			s.Budget[BUnreach] = 1
+			p.dd = append(p.dd, s)
+		}
+	}
+	return
+}
+
+func poolTick(tier string) (p pool) {
+	k := devK(tier)
+	tb := []int{int(BTick), 2, int(BDrop), 1, int(BDup), 1, int(BCampaign), 1}
+	for _, f := range []feat{pvF, cqF, pvcqF, asyncPvF} {
+		p.dd = append(p.dd,
+			tickSc("prevote-rejoin", 3, f, scriptPrevoteRejoin(), k, tb...),
+			tickSc("checkquorum-lease", 3, f, scriptCheckQuorumLease(), k, tb...),
+		)
+	}
+	return
+}
+
+func poolAll(tier string) (p pool) {
+	p.add(poolSafety(tier))
+	p.add(poolElection(tier))
+	p.add(poolSnapshot(tier))
+	p.add(poolConf(tier))
+	p.add(poolRead(tier))
+	p.add(poolFlow(tier))
+	p.add(poolTick(tier))
+	return
+}
+
+var allMonitors = []string{"C01", "C02", "C03", "C04", "C05", "C06", "C07", "C08", "C09", "C10", "C11", "C14"}
+
 // Jobs returns the deterministic job list of a property and tier.
 func Jobs(prop, tier string) []*Job {
 	var jobs []*Job
-	add := func(strategy string, scs []*Scenario, w int, mons ...string) {
-		for _, sc := range scs {
-			jobs = append(jobs, job(prop, tier, strategy, sc, w, mons...))
+	add := func(p pool, mons ...string) {
+		for _, sc := range p.bfs {
+			jobs = append(jobs, job(prop, tier, "bfs", sc, 2, mons...))
+		}
+		for _, sc := range p.dd {
+			jobs = append(jobs, job(prop, tier, "ddfs", sc, 1, mons...))
 		}
 	}
 	switch prop {
-	case "C01", "C03", "C04", "C06", "C07":
-		b, d := safetyScenarios(tier)
-		add("bfs", b, 2, prop)
-		add("ddfs", d, 1, prop)
+	case "ALL":
+		add(poolAll(tier), allMonitors...)
+	case "C01":
+		add(poolSafety(tier), prop)
+		add(poolSnapshot(tier), prop)
+		add(pool{dd: poolConf(tier).dd}, prop)
 	case "C02":
-		var b []*Scenario
-		for _, f := range []feat{syncF, asyncF, pvF} {
-			b = append(b, bfsDueling(f, 3, 2, 3), bfsDueling(f, 3, 2, 3, int(BDup), 1), bfsDueling(f, 3, 2, 3, int(BCrash), 1))
-		}
-		add("bfs", b, 2, prop)
-		_, d := safetyScenarios(tier)
-		add("ddfs", d, 1, prop)
+		add(poolElection(tier), prop)
+		add(pool{dd: poolSafety(tier).dd}, prop)
+		add(pool{dd: poolConf(tier).dd}, prop)
+	case "C03":
+		add(poolSafety(tier), prop)
+		add(poolSnapshot(tier), prop)
+	case "C04":
+		add(poolSafety(tier), prop)
+		add(poolConf(tier), prop)
 	case "C05":
-		b, d := safetyScenarios(tier)
-		add("bfs", b, 2, "C05", "C01", "C02", "C03", "C04")
-		add("ddfs", d, 1, "C05", "C01", "C02", "C03", "C04")
+		crashOnly := func(p pool) (o pool) {
+			for _, s := range p.bfs {
+				if s.Budget[BCrash] > 0 {
+					o.bfs = append(o.bfs, s)
+				}
+			}
+			for _, s := range p.dd {
+				if s.Budget[BCrash] > 0 {
+					o.dd = append(o.dd, s)
+				}
+			}
+			return
+		}
+		ms := []string{"C05", "C05/C01", "C05/C02", "C05/C03", "C05/C04", "C05/C06"}
+		add(crashOnly(poolSafety(tier)), ms...)
+		add(crashOnly(poolElection(tier)), ms...)
+		add(crashOnly(poolSnapshot(tier)), ms...)
+	case "C06":
+		add(poolSafety(tier), prop)
+		add(poolConf(tier), prop)
+	case "C07":
+		add(poolElection(tier), prop)
+		add(poolSafety(tier), prop)
+	case "C08":
+		add(poolSnapshot(tier), prop)
+		add(poolFlow(tier), prop)
+		add(pool{dd: poolSafety(tier).dd}, prop)
+	case "C09":
+		add(poolSnapshot(tier), prop)
+	case "C10":
+		add(poolConf(tier), prop)
+	case "C11":
+		add(poolRead(tier), prop)
 	case "C14":
-		b, d := safetyScenarios(tier)
-		add("bfs", b, 2, prop)
-		add("ddfs", d, 1, prop)
+		add(poolAll(tier), prop)
 	}
 	for i, j := range jobs {
 		j.Index = i
